@@ -7,6 +7,7 @@ import (
 	"go/constant"
 	"go/types"
 	"math/big"
+	"os"
 	"strings"
 
 	"golang.org/x/tools/go/ssa"
@@ -452,6 +453,7 @@ func (f *Frame) specQuant(n SQuant, env *specEnv) Val {
 	}
 	var binders []string
 	var ranges []string
+	var absPats []string
 	for _, v := range n.Vars {
 		e.n++
 		vn := fmt.Sprintf("%s!q%d", v.Name, e.n)
@@ -484,6 +486,7 @@ func (f *Frame) specQuant(n SQuant, env *specEnv) Val {
 						ne.absIdx = m
 					}
 					ne.absIdx[v.Name] = &absIndex{V: vn, baseKey: fmt.Sprintf("%#v", base)}
+					absPats = append(absPats, fmt.Sprintf("(select %s %s)", sv.arr, vn))
 					ne.bound[v.Name] = Val{T: fmt.Sprintf("(- %s %s)", vn, sv.off), Typ: mathInt}
 					continue
 				}
@@ -506,6 +509,10 @@ func (f *Frame) specQuant(n SQuant, env *specEnv) Val {
 	} else {
 		q = "exists"
 		bt = and(append(ranges, bt)...)
+	}
+	if len(absPats) == len(n.Vars) && len(absPats) > 0 && os.Getenv("RTV_PAT") != "" {
+		// every bound variable is an absolute index: give the solver the bare array reads as (multi-)pattern
+		return Val{T: fmt.Sprintf("(%s (%s) (! %s :pattern (%s)))", q, strings.Join(binders, " "), bt, strings.Join(absPats, " ")), Typ: boolT}
 	}
 	return Val{T: fmt.Sprintf("(%s (%s) %s)", q, strings.Join(binders, " "), bt), Typ: boolT}
 }
@@ -801,13 +808,7 @@ func (f *Frame) specStrOf(x SExpr, env *specEnv) Val {
 	if !ok {
 		return f.specFail("str() needs a slice")
 	}
-	// uninterpreted constructor with defining axioms
-	e.declFun("str_of", []string{"(Array Int Int)", sInt, sInt}, sStr)
-	if !e.declared["str_of_ax"] {
-		e.declared["str_of_ax"] = true
-		e.assert("(forall ((a (Array Int Int)) (o Int) (n Int)) (! (=> (>= n 0) (= (slen (str_of a o n)) n)) :pattern ((str_of a o n))))")
-		e.assert("(forall ((a (Array Int Int)) (o Int) (n Int) (k Int)) (! (=> (and (<= 0 k) (< k n)) (= (sat (str_of a o n) k) (select a (+ o k)))) :pattern ((sat (str_of a o n) k))))")
-	}
+	e.needStrOf()
 	return Val{T: fmt.Sprintf("(str_of %s %s %s)", sv.arr, sv.off, sv.ln), Typ: types.Typ[types.String]}
 }
 
@@ -822,6 +823,9 @@ func (f *Frame) specUser(sf *SpecFunc, n SCall, env *specEnv) Val {
 	}
 	if sf.Result == "int" || sf.Result == "mathint" {
 		rt = mathInt
+	}
+	if sf.Body != nil && sf.Opaque {
+		return f.specOpaqueDefined(sf, n, env, rt)
 	}
 	if sf.Body != nil {
 		// inline expansion
@@ -938,7 +942,10 @@ func soleIndexBase(body SExpr, v string) (SExpr, bool) {
 		case SIndex:
 			if mentions(n.I) {
 				name, _, simple := simpleIndex(n.I)
-				if !simple || name != v || mentions(n.X) {
+				if !simple || name != v {
+					return true // a non-simple index use: left in relative form
+				}
+				if mentions(n.X) {
 					ok = false
 					return true
 				}
@@ -995,4 +1002,72 @@ func walkSpec(x SExpr, fn func(SExpr) bool) {
 			walkSpec(n.Hi, fn)
 		}
 	}
+}
+
+func (e *Enc) needStrOf() {
+	e.declFun("str_of", []string{"(Array Int Int)", sInt, sInt}, sStr)
+	if !e.declared["str_of_ax"] {
+		e.declared["str_of_ax"] = true
+		e.assert("(forall ((a (Array Int Int)) (o Int) (n Int)) (! (=> (>= n 0) (= (slen (str_of a o n)) n)) :pattern ((str_of a o n))))")
+		e.assert("(forall ((a (Array Int Int)) (o Int) (n Int) (k Int)) (! (=> (and (<= 0 k) (< k n)) (= (sat (str_of a o n) k) (select a (+ o k)))) :pattern ((sat (str_of a o n) k))))")
+	}
+}
+
+type opaqueInfo struct {
+	reads    []heapRead
+	argSorts []string
+}
+
+// specOpaqueDefined: a defined spec function used through an uninterpreted symbol. Its arguments are the explicit
+// parameters followed by the heaps its body reads; one quantified axiom states the definition.
+func (f *Frame) specOpaqueDefined(sf *SpecFunc, n SCall, env *specEnv, rt types.Type) Val {
+	e := f.e
+	info := e.opaques[sf.Name]
+	rs := sInt
+	if rt != nil {
+		rs = e.tt().sortOf(rt)
+	}
+	if info == nil {
+		info = &opaqueInfo{}
+		e.opaques[sf.Name] = info
+		var reads []heapRead
+		sym := &State{heaps: map[string]string{}, alloc: "alloc0", symbolic: true, reads: &reads}
+		ne := &specEnv{f: f, st: sym, old: sym, bound: map[string]Val{}, seqs: map[string]*seqView{}, callSite: true, noProgram: true, names: map[string]Val{}}
+		var binders, args []string
+		for _, p := range sf.Params {
+			pt := f.resolveType(p.Type)
+			if p.Type == "int" || p.Type == "mathint" {
+				pt = mathInt
+			}
+			if pt == nil {
+				f.specFail("%s: unknown parameter type %s", sf.Name, p.Type)
+				pt = mathInt
+			}
+			vn := "pv!" + p.Name
+			binders = append(binders, fmt.Sprintf("(%s %s)", vn, e.tt().sortOf(pt)))
+			args = append(args, vn)
+			info.argSorts = append(info.argSorts, e.tt().sortOf(pt))
+			ne.bound[p.Name] = Val{T: vn, Typ: pt}
+		}
+		body := f.specTerm(sf.Body, ne)
+		info.reads = reads
+		sorts := append([]string{}, info.argSorts...)
+		for _, r := range reads {
+			binders = append(binders, fmt.Sprintf("(%s %s)", r.v, r.sort))
+			args = append(args, r.v)
+			sorts = append(sorts, r.sort)
+		}
+		e.declFun("sp_"+sf.Name, sorts, rs)
+		app := fmt.Sprintf("(sp_%s %s)", sf.Name, strings.Join(args, " "))
+		e.assert(fmt.Sprintf("(forall (%s) (! (= %s %s) :pattern (%s)))", strings.Join(binders, " "), app, body.T, app))
+	}
+	var args []string
+	for i := range sf.Params {
+		a := f.specTerm(n.Args[i], env)
+		args = append(args, a.T)
+	}
+	for _, r := range info.reads {
+		args = append(args, e.getHeap(env.st, r.name, r.sort))
+	}
+	return Val{T: fmt.Sprintf("(sp_%s %s)", sf.Name, strings.Join(args, " ")), Typ: rt}
 }
